@@ -37,3 +37,15 @@ def write_tables(dest: Path) -> Path:
     dest.parent.mkdir(parents=True, exist_ok=True)
     dest.write_text(txt)
     return dest
+
+
+def write_typed_tables(dest: Path) -> Path:
+    """the same extraction as a typed module for Apalache (MachineInd.tla)"""
+    from pandora.state_machine import PandoraMachine
+    ann = "\\* @type: Set({trigger: Str, source: Str, dest: Str, cond: Str});\n"
+    txt = "---- MODULE MachineIndTables ----\n\\* GENERATED at check time (binding B1)\n"
+    txt += ann + "TypedCheckTable == " + table_to_tla(PandoraMachine._transitions_check, "check_") + "\n"  # pylint: disable=protected-access
+    txt += ann + "TypedRunTable == " + table_to_tla(PandoraMachine._transitions_run) + "\n====\n"  # pylint: disable=protected-access
+    dest.parent.mkdir(parents=True, exist_ok=True)
+    dest.write_text(txt)
+    return dest
